@@ -572,7 +572,7 @@ func cacheHistoryUnitS(capacity, depth, spelling int) harness.Unit {
 var Prop = &harness.Prop{
 	ID:          "C08",
 	Level:       "fault_enumeration",
-	Rule:        "attacker catalogue applied exhaustively: (A) malicious peers expressed through configuration - 16 server identities (wrong signing key, wrong decryption key, untrusted/expired/not-yet-valid/wrong-name/wrong-usage/swapped/duplicated/RSA certificates, another server's identity), client clock and requested-name variations, wrong root pool, against a verifying library client; 5 client identities (untrusted, expired, wrong EKU, CertificateVerify by another key, server certificate) and no certificate x 5 ClientAuth policies against a library server, acceptance predicted per policy; both GMSSL suites. (B) man in the middle between two honest library endpoints (server-only and mutual authentication, both suites): at EVERY plaintext handshake message of both directions every byte flipped, the message dropped, duplicated, truncated, replaced by the same message of another session, reordered with its successor; the same byte flips on TLS 1.2 with Go's crypto/tls as the honest peer in each role. (C) a keyed scripted peer (gmref) that computes Finished over the transcript that really happened, so only the identity proof is wrong: as server against a verifying library client - ServerKeyExchange omitted (with and without the signing key), signed with the encryption key / an unrelated key / d=1, over swapped or foreign randoms, over the signing or a foreign encryption certificate, without the length prefix, without Z_A, r=0, empty, trailing byte; guessed pre-master secret; untrusted/expired/wrong-name certificates with their keys; one certificate, duplicated, swapped; 18 wrong Finished values (each byte, other label, 11/13/0 bytes, shorter transcripts); as client against a library server under each ClientAuth policy - CertificateVerify omitted, by other keys, over other transcripts, malformed; untrusted/expired/wrong-EKU certificates with valid proofs; pre-master secrets of 47/49/1 bytes or encrypted to the signing key; the same Finished cases. Oracle: the attacked endpoint aborts; never both complete; genuine identities (controls) complete. On the standard TLS path (1.2 with both AES suites, 1.1 and 1.0 with AES-CBC) the same reference peer in its RSA-key-exchange profiles, including a CertificateVerify replayed verbatim from an earlier session: 30 scripted-client proofs (CertificateVerify omitted / by other keys / over other transcripts / with changed algorithm bytes, certificate lists, untrusted certificates, 18 wrong Finished values) under each requesting ClientAuth policy, and scripted servers without the private key, with certificates of another key type, and with wrong Finished values. TLS 1.2 ECDHE (P-256, RSA- and ECDSA-signed) with the reference peer: ServerKeyExchange omitted / signed by another key / over other randoms or another point / with a mislabelled hash / unsigned; ephemeral points off the curve, all-zero, 'infinity', compressed, on a mislabelled curve, with explicit parameters; client key shares off the curve, zero, compressed, truncated, extended, mis-sized, non-reduced. Client-cache histories: a verifying client with a session cache of capacity 1 and 2 and two servers certified for different names, every history of connect(name i, server j) to depth 4 (thorough 5): completion exactly when the answering server is certified for the requested name. Pairs: for every ordered pair (A,B) of scripted-server cases, A then B against ONE client Config: B's verdict must equal B's verdict on a fresh Config (nothing a previous peer did may change whom the client trusts); likewise all ordered pairs of scripted-client cases on one server Config (RequireAndVerifyClientCert; thorough: every requesting policy). Distinct/non-trivial = distinct case labels. Added: requested name x certified names (25 spellings incl. IP literals, brackets, zone, trailing dot, case; GMSSL and TLS 1.0-1.2) against an independent matching rule; VerifyPeerCertificate / InsecureSkipVerify matrix on both sides (completion, consultation, certificates shown, verified chains); the configuration-level units again with every Config passed through Clone(); Listen / Dial / DialWithDialer over the loopback interface (name from the address, clock after expiry, caller's Config unchanged); identity across renegotiation (11 wrong renegotiation_info contents, 8 identity changes, first and second renegotiation, the client's own renegotiation_info); ticket-then-untrusted-identity on TLS and GMSSL; cache histories with mixed-case names; client-cache trust histories: one session cache, every history over {connect, server drops its ticket key, client clock past the certificates' validity, client root pool without the server's CA} (GMSSL with listed / default suites, TLS 1.2): a full handshake must verify the presented certificates against the settings in force now; nested sessions on one client Config (an impostor's complete session before every record of a genuine one and vice versa); ticket laundering (a keyless attacker offers the victim's ticket in a hello that forces a full handshake without certificate and resumes the ticket issued there: never the victim's identity); the ClientAuth policy x identity matrix also with the server Config handed out by GetConfigForClient of an outer Config with another policy.",
+	Rule:        "attacker catalogue applied exhaustively: (A) malicious peers expressed through configuration - 16 server identities (wrong signing key, wrong decryption key, untrusted/expired/not-yet-valid/wrong-name/wrong-usage/swapped/duplicated/RSA certificates, another server's identity), client clock and requested-name variations, wrong root pool, against a verifying library client; 5 client identities (untrusted, expired, wrong EKU, CertificateVerify by another key, server certificate) and no certificate x 5 ClientAuth policies against a library server, acceptance predicted per policy; both GMSSL suites. (B) man in the middle between two honest library endpoints (server-only and mutual authentication, both suites): at EVERY plaintext handshake message of both directions every byte flipped, the message dropped, duplicated, truncated, replaced by the same message of another session, reordered with its successor; the same byte flips on TLS 1.2 with Go's crypto/tls as the honest peer in each role. (C) a keyed scripted peer (gmref) that computes Finished over the transcript that really happened, so only the identity proof is wrong: as server against a verifying library client - ServerKeyExchange omitted (with and without the signing key), signed with the encryption key / an unrelated key / d=1, over swapped or foreign randoms, over the signing or a foreign encryption certificate, without the length prefix, without Z_A, r=0, empty, trailing byte; guessed pre-master secret; untrusted/expired/wrong-name certificates with their keys; one certificate, duplicated, swapped; 18 wrong Finished values (each byte, other label, 11/13/0 bytes, shorter transcripts); as client against a library server under each ClientAuth policy - CertificateVerify omitted, by other keys, over other transcripts, malformed; untrusted/expired/wrong-EKU certificates with valid proofs; pre-master secrets of 47/49/1 bytes or encrypted to the signing key; the same Finished cases. Oracle: the attacked endpoint aborts; never both complete; genuine identities (controls) complete. On the standard TLS path (1.2 with both AES suites, 1.1 and 1.0 with AES-CBC) the same reference peer in its RSA-key-exchange profiles, including a CertificateVerify replayed verbatim from an earlier session: 30 scripted-client proofs (CertificateVerify omitted / by other keys / over other transcripts / with changed algorithm bytes, certificate lists, untrusted certificates, 18 wrong Finished values) under each requesting ClientAuth policy, and scripted servers without the private key, with certificates of another key type, and with wrong Finished values. TLS 1.2 ECDHE (P-256, RSA- and ECDSA-signed) with the reference peer: ServerKeyExchange omitted / signed by another key / over other randoms or another point / with a mislabelled hash / unsigned; ephemeral points off the curve, all-zero, 'infinity', compressed, on a mislabelled curve, with explicit parameters; client key shares off the curve, zero, compressed, truncated, extended, mis-sized, non-reduced. Client-cache histories: a verifying client with a session cache of capacity 1 and 2 and two servers certified for different names, every history of connect(name i, server j) to depth 4 (thorough 5): completion exactly when the answering server is certified for the requested name. Pairs: for every ordered pair (A,B) of scripted-server cases, A then B against ONE client Config: B's verdict must equal B's verdict on a fresh Config (nothing a previous peer did may change whom the client trusts); likewise all ordered pairs of scripted-client cases on one server Config (RequireAndVerifyClientCert; thorough: every requesting policy). Distinct/non-trivial = distinct case labels. Added: requested name x certified names (25 spellings incl. IP literals, brackets, zone, trailing dot, case; GMSSL and TLS 1.0-1.2) against an independent matching rule; VerifyPeerCertificate / InsecureSkipVerify matrix on both sides (completion, consultation, certificates shown, verified chains); the configuration-level units again with every Config passed through Clone(); Listen / Dial / DialWithDialer over the loopback interface (name from the address, clock after expiry, caller's Config unchanged); identity across renegotiation (11 wrong renegotiation_info contents, 8 identity changes, first and second renegotiation, the client's own renegotiation_info); ticket-then-untrusted-identity on TLS and GMSSL; cache histories with mixed-case names; client-cache trust histories: one session cache, every history over {connect, server drops its ticket key, client clock past the certificates' validity, client root pool without the server's CA} (GMSSL with listed / default suites, TLS 1.2): a full handshake must verify the presented certificates against the settings in force now; the configured time as the only clock (one certificate valid only around the machine's clock, Config.Time a year away: five positions); nested sessions on one client Config (an impostor's complete session before every record of a genuine one and vice versa); ticket laundering (a keyless attacker offers the victim's ticket in a hello that forces a full handshake without certificate and resumes the ticket issued there: never the victim's identity); the ClientAuth policy x identity matrix also with the server Config handed out by GetConfigForClient of an outer Config with another policy.",
 	Assumptions: []string{"the scripted peer is the independent reference implementation gmref (own codecs, PRF, SM2/SM3/SM4 from the reference packages); its honest flows are validated against the library in both roles by the control cases of every unit"},
 	Bounds: func(tier string) string {
 		if tier == "thorough" {
@@ -595,7 +595,7 @@ var Prop = &harness.Prop{
 		for _, es := range []uint16{gmref.SuiteECDHERSAGCM, gmref.SuiteECDHEECDSAGCM} {
 			u = append(u, ecdheUnit(es, true), ecdheUnit(es, false))
 		}
-		u = append(u, nestedImpostorUnit(suites[0]), nestedImpostorUnit(suites[1]))
+		u = append(u, nestedImpostorUnit(suites[0]), nestedImpostorUnit(suites[1]), configuredClockUnit())
 		u = append(u, tlsTicketIdentityUnit(), gmTicketIdentityUnit(), ticketLaunderingUnit(), nameMatrixUnit(), callbackUnit(), dialUnit(),
 			renegIdentityUnit(gmref.SuiteAESCBC, 0x0303), renegIdentityUnit(gmref.SuiteAESGCM, 0x0303), renegIdentityUnit(gmref.SuiteAESCBC, 0x0301), renegIdentityUnit(gmref.SuiteECDHEECDSAGCM, 0x0303), renegIdentityUnit(gmref.SuiteECDHERSAGCM, 0x0303))
 		chd := 4
